@@ -255,7 +255,7 @@ def range_check(chk, qa, tier, rng):
     """Real QHACalculator.desired_pressure_status with symbolic P(T,V) and requested pressures: raises <=> min_T P[T,-1] < max_j p_j."""
     chk.encode(qa.QHACalculator.desired_pressure_status)
     import logging
-    shapes = [(2, 3, 2)] if tier == "quick" else [(1, 2, 1), (2, 3, 2), (2, 2, 3), (3, 3, 2)]
+    shapes = [(2, 3, 2), (1, 2, 1)] if tier == "quick" else [(1, 2, 1), (2, 3, 2), (2, 2, 3), (3, 3, 2), (1, 1, 4)]
     for nt, nv, npd in shapes:
         name = "range-check[nT=%d,nV=%d,np=%d]" % (nt, nv, npd)
         ctx = new_context()
